@@ -83,7 +83,70 @@ def run_case(case):
                     nd = G.nodes.get(f"{k}_{i}")
                     if nd is not None and abs(float(nd["ts_start"]) - 0.1 * (i + 1)) > 1e-9:
                         bad.append(f"episode {e} ({label}): vertex {k}_{i} has ts_start {nd['ts_start']}")
-    return bad, sum(sum(ep["lens"].values()) for ep in case["eps"])
+    checks = sum(sum(ep["lens"].values()) for ep in case["eps"])
+    rb, rc = records_part(case)
+    return bad + rb, checks + rc
+
+
+def records_part(case):
+    """records of REAL nodes (one connection under a shadow input name) -> to_graph -> filter: exactly the selected nodes and the connections among them"""
+    import numpy as np
+    from distrax import Deterministic
+    from rex import base
+    from rex.base import StaticDist
+    from rex.node import BaseNode
+
+    class Nd(BaseNode):
+        pass
+    kinds = case["kinds"]
+    bad, checks = [], 0
+    nodes = {k: Nd(k, rate=10.0, delay=0.01, delay_dist=StaticDist.create(Deterministic(0.01))) for k in kinds}
+    conns = sorted(case["eps"][0]["edges"])
+    for ci, key in enumerate(conns):
+        u, v = key.split(">")
+        nodes[v].connect(nodes[u], blocking=False, skip=(u > v), delay=0.0, delay_dist=StaticDist.create(Deterministic(0.0)), name=(f"from_{u}" if ci % 2 == 0 else None))
+    ep = case["eps"][0]
+    recs = {}
+    for k in kinds:
+        n = ep["lens"][k]
+        ts = np.cumsum(np.ones(n) * 0.1)
+        steps = base.StepRecord(eps=np.zeros(n, dtype=int), seq=np.arange(n), ts_start=ts, ts_end=ts + 0.05, delay=np.ones(n) * 0.05, rng=None, inputs=None, state=None, output=None)
+        ins = {}
+        for iname, c in nodes[k].inputs.items():
+            lst = ep["edges"][f"{c.output_node.name}>{k}"]
+            msgs = base.MessageRecord(seq_out=np.array([x[0] for x in lst], dtype=int), seq_in=np.array([x[1] for x in lst], dtype=int), ts_sent=np.array([x[2] for x in lst]),
+                                      ts_recv=np.array([x[2] for x in lst]), delay=np.zeros(len(lst)))
+            ins[c.output_node.name] = base.InputRecord(info=nodes[k].info.inputs[c.output_node.name], messages=msgs)
+        recs[k] = base.NodeRecord(info=nodes[k].info, clock=None, real_time_factor=1.0, ts_start=0.0, params=None, inputs=ins, steps=steps)
+    rec = base.EpisodeRecord(nodes=recs)
+    g = rec.to_graph()
+    want_e = {tuple(key.split(">")) for key in conns}
+    checks += 1
+    if set(g.vertices) != set(kinds) or set(g.edges) != want_e:
+        bad.append(f"record -> graph: vertices {sorted(g.vertices)} edges {sorted(g.edges)}; recorded connections (sender, receiver) are {sorted(want_e)}")
+        return bad, checks
+    for (u, v) in want_e:
+        lst = ep["edges"][f"{u}>{v}"]
+        if [int(x) for x in np.asarray(g.edges[(u, v)].seq_out)] != [x[0] for x in lst] or [int(x) for x in np.asarray(g.edges[(u, v)].seq_in)] != [x[1] for x in lst]:
+            bad.append(f"record -> graph: edge {u}->{v} does not carry the recorded messages")
+    import itertools
+    for r in range(1, len(kinds) + 1):
+        for sub in itertools.combinations(kinds, r):
+            sel = {k: nodes[k] for k in sub}
+            among = {e for e in want_e if e[0] in sub and e[1] in sub}
+            for flag in (True, False):
+                checks += 2
+                fg = g.filter(sel, filter_edges=flag)
+                into = {e for e in want_e if e[1] in sub}
+                # both flags: precisely the selected nodes and the connections among them (the flag only decides whether the NODE objects' connection lists or
+                # the graph's own edges are consulted)
+                if set(fg.vertices) != set(sub) or set(fg.edges) != among:
+                    bad.append(f"Graph.filter({list(sub)}, filter_edges={flag}): vertices {sorted(fg.vertices)} edges {sorted(fg.edges)}; connections among the selected nodes: {sorted(among)}")
+                fr = rec.filter(sel, filter_connections=flag)
+                got = {(u, v) for v, nr in fr.nodes.items() for u in nr.inputs}
+                if set(fr.nodes) != set(sub) or got != among:
+                    bad.append(f"EpisodeRecord.filter({list(sub)}, filter_connections={flag}): nodes {sorted(fr.nodes)} connections {sorted(got)}; among the selected nodes: {sorted(among)}")
+    return bad, checks
 
 
 def main():
